@@ -4,6 +4,8 @@ import Pandora.Model.C02Par
 import Pandora.Model.C02Cb
 import Pandora.Model.C02Huge
 import Pandora.Model.C02LeafPar
+import Pandora.Model.C02Big
+import Pandora.Model.C02Fac
 
 /-!
 C02 driver.  For every case line: the MODEL's prediction of the observation (sequential: `seqRun` on the object
@@ -152,8 +154,12 @@ def handleSeq (kv : List (String × String)) (impl : String) : String × String 
     | .ok s =>
       let m := showRun now0 ops (seqRun (lvlOps d) s calls) cb
       let sp := showRun now0 ops (absRun (.unstarted (flat t)) calls) cb
+      -- the offsets of a finite part were enumerated from the REAL leaf: they are part of what the code did
+      let illFormed := (flat t).find? (fun p => !p.wf)
       let verdict :=
         if impl == "INCONCLUSIVE" then "skip:inconclusive"
+        else if let some p := illFormed then
+          s!"fail:order:a part hands out tokens that are not in order or lie outside the part (after its finish time, where the next part starts): {(toString (repr p)).take 160}"
         else if impl == sp then "ok"
         else if decreasing (nTimes now0 (impl.splitOn ";")) && !decreasing (nTimes now0 (sp.splitOn ";")) then
           s!"fail:order:times returned to the caller decrease; spec={sp.take 120}"
@@ -247,6 +253,223 @@ def handleHuge (kv : List (String × String)) (impl : String) : String × String
           s!"fail:order:times returned to the caller decrease; spec={m.take 120}"
         else s!"fail:{firstDiff (impl.splitOn ";") (m.splitOn ";")}"
       (m, verdict)
+  | _ => ("-", "fail:driver:unparsable tree")
+
+
+/-! ### mode=seq big=1: const parts that are DESCRIBED (rate as an exact rational, duration), not enumerated
+
+The prediction is `seqRun` on the object `bbuild` makes for the described tree — the same generic composite over
+described leaves — and by `C02_big_refines` that IS what the flat spec says for the tree with all offsets written out,
+so the verdict compares the implementation's observation with it.  `D<k>` = k calls of Next, shown as a digest. -/
+
+def takeNat (cs : List Char) : Option (Nat × List Char) :=
+  let ds := cs.takeWhile Char.isDigit
+  if ds.isEmpty then none else some (ds.foldl (fun a c => a * 10 + (c.toNat - '0'.toNat)) 0, cs.drop ds.length)
+
+mutual
+def bparseTree : Nat → List Char → Option (BTree × List Char)
+  | 0, _ => none
+  | fuel + 1, cs =>
+    match cs with
+    | 'G' :: r => do
+        let (dur, r) ← takeInt r
+        let (num, r) ← takeNat (r.drop 1)
+        let (den, r) ← takeNat (r.drop 1)
+        pure (BTree.const (F64.ofRat num den) dur, skipBraces r)
+    | 'F' :: r => do
+        let (dur, r) ← takeInt r
+        match r with
+        | '[' :: r =>
+            let (runs, r) ← takeRuns (r.length + 1) r []
+            pure (BTree.ofRuns runs dur, skipBraces r)
+        | _ => none
+    | 'U' :: r => do
+        let (dur, r) ← takeInt r
+        pure (BTree.unl dur, skipBraces r)
+    | 'I' :: r => do
+        let (frm, r) ← takeInt r
+        let (to, r) ← takeInt (r.drop 1)
+        let (step, r) ← takeInt (r.drop 1)
+        let (dur, r) ← takeInt (r.drop 1)
+        pure (binstanceStepTree frm.toNat to.toNat step.toNat dur, skipBraces r)
+    | 'C' :: '(' :: r => do
+        let (kids, r) ← bparseKids fuel r []
+        pure (BTree.comp kids, skipBraces r)
+    | _ => none
+def bparseKids : Nat → List Char → List BTree → Option (List BTree × List Char)
+  | 0, _, _ => none
+  | fuel + 1, cs, acc =>
+    match cs with
+    | ')' :: r => some (acc.reverse, r)
+    | ';' :: r => bparseKids fuel r acc
+    | _ => match bparseTree fuel cs with
+      | some (t, r) => bparseKids fuel r (t :: acc)
+      | none => none
+end
+
+def batchSize (op : String) : Option Nat := if op.startsWith "D" then (op.drop 1).toNat? else none
+
+/-- op tokens S N L D<k> → calls (constant clock) -/
+def mkCallsBig (now0 : Int) : List String → List (SOp × Int)
+  | [] => []
+  | op :: r =>
+    if op == "S" then (.start 0, now0) :: mkCallsBig now0 r
+    else if op == "N" then (.next, now0) :: mkCallsBig now0 r
+    else if op == "L" then (.left, now0) :: mkCallsBig now0 r
+    else match batchSize op with
+      | some k => List.replicate k (SOp.next, now0) ++ mkCallsBig now0 r
+      | none => mkCallsBig now0 r
+
+def bigMod : Int := 2305843009213693951   -- 2^61 - 1
+
+structure Dig where
+  nok : Nat := 0
+  nfin : Nat := 0
+  first : Option Int := none
+  last : Int := 0
+  dec : Nat := 0
+  sum : Int := 0
+  prev : Option Int := none
+
+/-- consume k results into a digest; `none` = a panic inside the batch (message returned) -/
+def digestGo (now0 : Int) : Nat → List Obs → Dig → Except String (Dig × List Obs)
+  | 0, obs, d => .ok (d, obs)
+  | k + 1, obs, d =>
+    match obs with
+    | .tok tx ok :: r =>
+      let isClock := now0 ≤ tx && tx < now0 + minute
+      let d' : Dig := { nok := if ok then d.nok + 1 else d.nok, nfin := if ok then d.nfin else d.nfin + 1,
+                        first := d.first.orElse (fun _ => some tx), last := tx,
+                        dec := (match d.prev with | some p => if tx < p then d.dec + 1 else d.dec | none => d.dec),
+                        sum := if isClock then d.sum else (d.sum + tx % bigMod) % bigMod, prev := some tx }
+      digestGo now0 k r d'
+    | .err e :: _ => .error e
+    | _ => .error "short"
+
+def renderBig (now0 : Int) : List String → List Obs → Option Int → List String
+  | [], _, _ => []
+  | op :: r, obs, prev =>
+    match batchSize op with
+    | some 0 => "D:0:0:-:-:0:0" :: renderBig now0 r obs prev
+    | some k =>
+      (match digestGo now0 k obs { prev := prev } with
+       | .ok (d, rest) =>
+         s!"D:{d.nok}:{d.nfin}:{fmtT now0 (d.first.getD 0)}:{fmtT now0 d.last}:{d.dec}:{d.sum}" :: renderBig now0 r rest d.prev
+       | .error e => if e == "short" then [] else ["P:" ++ e])
+    | none =>
+      if op != "S" && op != "N" && op != "L" then renderBig now0 r obs prev else
+      match obs with
+      | [] => []
+      | o :: os => fmtObs now0 o :: (match o with
+          | .err _ => []
+          | .tok tx _ => renderBig now0 r os (some tx)
+          | _ => renderBig now0 r os prev)
+
+/-- the times an observation with digests shows, in order: N → its time, D → first and last -/
+def bigTimes (now0 : Int) (evs : List String) : List Int :=
+  evs.flatMap fun e => match e.splitOn ":" with
+    | ["N", tx, _] => [timeOf now0 tx]
+    | ["D", _, _, f, l, _, _] => if f == "-" then [] else [timeOf now0 f, timeOf now0 l]
+    | _ => []
+
+def bigDecs (evs : List String) : Nat :=
+  evs.foldl (fun a e => match e.splitOn ":" with
+    | ["D", _, _, _, _, d, _] => a + d.toNat?.getD 0
+    | _ => a) 0
+
+def firstDiffBig (a b : List String) (i : Nat := 0) : String :=
+  match a, b with
+  | x :: xs, y :: ys =>
+    if x == y then firstDiffBig xs ys (i + 1) else
+    match x.splitOn ":", y.splitOn ":" with
+    | ["D", okx, finx, _, lx, dx, _], ["D", oky, finy, _, ly, dy, _] =>
+      let kind := if okx != oky || finx != finy then "exactly-once" else if dx != dy then "order"
+        else if finy != "0" && lx != ly then "finish" else "next"
+      s!"{kind}:op{i} impl={x} spec={y}"
+    | _, _ => firstDiff [x] [y] i
+  | _, _ => firstDiff a b i
+
+def handleBig (kv : List (String × String)) (impl : String) : String × String :=
+  let treeS := getS kv "tree"
+  let now0 := (getI? kv "now").getD 0
+  let ops := splitList (getS kv "ops")
+  let cb := getS kv "cb" == "1"
+  match bparseTree (treeS.length + 1) treeS.toList with
+  | some (t, []) =>
+    let d := t.depth
+    let calls := mkCallsBig now0 ops
+    match bbuild now0 d t with
+    | .error e => ("P:" ++ e, if impl == "P:" ++ e then "ok" else s!"fail:panic:build impl={impl.take 60}")
+    | .ok s =>
+      let obs := seqRun (blvlOps d) s calls
+      let base := ";".intercalate (renderBig now0 ops obs none)
+      let m := if cb then base ++ s!";CB:{cbCount obs}" else base
+      let ie := impl.splitOn ";"
+      let me := m.splitOn ";"
+      let verdict :=
+        if impl == m then "ok"
+        else if (bigDecs ie > 0 || decreasing (bigTimes now0 ie)) && !(bigDecs me > 0 || decreasing (bigTimes now0 me)) then
+          s!"fail:order:times returned to the caller decrease ({bigDecs ie} results inside the batches earlier than the result before them); impl={impl.take 200} spec={m.take 200}"
+        else s!"fail:{firstDiffBig ie me}"
+      (m, verdict)
+  | _ => ("-", "fail:driver:unparsable tree")
+
+/-! ### mode=fac: k schedules produced by a factory option, each judged on its own -/
+
+def parseFacOps (now0 : Int) (ops : List String) : List (Nat × SOp × Int) :=
+  ops.filterMap fun o => match o.splitOn "." with
+    | [j, "S"] => j.toNat?.map fun j => (j, SOp.start 0, now0)
+    | [j, "N"] => j.toNat?.map fun j => (j, SOp.next, now0)
+    | [j, "L"] => j.toNat?.map fun j => (j, SOp.left, now0)
+    | _ => none
+
+/-- re-interleave per-schedule observation lists in the order of the calls; a panic ends the run -/
+def interleaveObs : List (Nat × SOp × Int) → List (List Obs) → List (Nat × Obs)
+  | [], _ => []
+  | (j, _) :: r, per =>
+    match per[j]? with
+    | some (o :: os) => (j, o) :: (match o with | .err _ => [] | _ => interleaveObs r (per.set j os))
+    | _ => interleaveObs r per
+
+def showFac (now0 : Int) (l : List (Nat × Obs)) : List String := l.map fun (j, o) => s!"{j}.{fmtObs now0 o}"
+
+def stripIdx (s : String) : String := match s.splitOn "." with
+  | _ :: rest => ".".intercalate rest
+  | _ => s
+
+def handleFac (kv : List (String × String)) (impl : String) : String × String :=
+  let treeS := getS kv "tree"
+  let now0 := (getI? kv "now").getD 0
+  let k := (getN? kv "k").getD 1
+  let calls := (parseFacOps now0 (splitList (getS kv "ops"))).filter (·.1 < k)
+  if impl == "NOCONF" then ("-", "skip:not-expressible-in-a-config") else
+  match parseTree (treeS.length + 1) treeS.toList with
+  | some (t, []) =>
+    let d := t.depth
+    match build now0 d t with
+    | .error e => ("P:" ++ e, s!"fail:panic:build {e}")
+    | .ok s =>
+      -- the model: k independent objects, every factory call builds the configured tree anew
+      let m := showFac now0 (facRun (lvlOps d) (List.replicate k s) calls)
+      -- the spec: every produced schedule is a run of the flat spec of the configured tree on the calls made to it
+      let per := (List.range k).map fun j => absRun (.unstarted (flat t)) (projCalls j calls)
+      let sp := showFac now0 (interleaveObs calls per)
+      let ie := splitList impl ";"
+      let verdict :=
+        if ie == sp then "ok" else
+        let badOrder := (List.range k).find? fun j =>
+          decreasing (nTimes now0 ((ie.filter (·.startsWith s!"{j}.")).map stripIdx)) &&
+          !decreasing (nTimes now0 ((sp.filter (·.startsWith s!"{j}.")).map stripIdx))
+        match badOrder with
+        | some j => s!"fail:order:times returned by the schedule of factory call {j} decrease"
+        | none =>
+          -- first differing result, classified like in mode=seq, with the schedule it belongs to
+          let rec go : List String → List String → Nat → String
+            | x :: xs, y :: ys, i => if x == y then go xs ys (i + 1) else
+                s!"{firstDiff [stripIdx x] [stripIdx y] i} (schedule of factory call {(y.splitOn ".").headD "?"}; every produced schedule must behave like a schedule of its own)"
+            | xs, ys, i => firstDiff xs ys i
+          s!"fail:{go ie sp 0}"
+      (";".intercalate m, verdict)
   | _ => ("-", "fail:driver:unparsable tree")
 
 /-! ### mode=conc: controlled interleavings -/
@@ -627,7 +850,9 @@ def handle : Handler := fun input impl =>
   if impl == "TIMEOUT" then ("-", "skip:inconclusive:the controlled run did not settle in time") else
   if impl == "HANG" || impl.endsWith ":HANG" then ("-", "fail:hang:a Next/Left/Start call did not return (deadlock)") else
   match getS kv "mode" "seq" with
-  | "seq" => if getS kv "huge" == "1" then handleHuge kv impl else handleSeq kv impl
+  | "seq" => if getS kv "huge" == "1" then handleHuge kv impl else if getS kv "big" == "1" then handleBig kv impl
+      else handleSeq kv impl
+  | "fac" => handleFac kv impl
   | "conc" => handleConc kv impl
   | "stress" => handleStress kv impl
   | "cbconc" => handleCbConc kv impl
